@@ -20,7 +20,7 @@ Ranking argument (lexicographic, flattened into explicit budgets):
   * a flood does not nest: its branches run one after the other at the same depth, sharing one TTL.
 The cycle "ARP request → look-up → ARP request" is cut by the repaired code in three places: the router never forwards a
 broadcast (F-33), a host resolves its gateway without ARP (F-57), a firewall drops a broadcast on its DMZ port before its
-look-ups (F-58, found by this proof: before that repair the statement below was false under `GoodCfg`).
+look-ups (F-C08-r3-1, found by this proof: before that repair the statement below was false under `GoodCfg`).
 -/
 import PrimaiteModel.Lemmas.ForwardInv
 import PrimaiteModel.Props.C08Forward
